@@ -1,6 +1,7 @@
 //! C16 — name-value codec.
 use crate::exec::{run as ex, Impl};
 use crate::util::*;
+use crate::gen::nv_enc;
 use fastcgi_server::protocol::nv;
 
 type Pair = (Vec<u8>, Vec<u8>);
@@ -174,6 +175,22 @@ pub fn run(ctx: &mut Ctx) {
         or.eval(&bs, !o.starts_with("0 "));
         if i == 0 { or.sample(format!("nv.all {} -> {}", hexd(&bs[..bs.len().min(32)]), &o[..o.len().min(80)])); }
     }
+    // --- both length prefixes in the 4-byte form with values near 2^31: their sum (plus the 8 header bytes) passes 2^32 — an
+    // incomplete pair like any other, at the start or behind valid pairs, with 0..40 bytes following
+    log.case("flat-huge-both");
+    let tops: [u32; 9] = [0x7fff_ffff, 0x7fff_fffe, 0x7fff_fffc, 0x7fff_fff8, 0x7fff_fff0, 0x7fff_ff00, 0x4000_0000, 0x0000_0080, 0x0001_0000];
+    for &a in &tops { for &b in &tops {
+        for lead in [0usize, 1, 2] {
+            let mut bs: Vec<u8> = vec![];
+            for k in 0..lead { bs.extend(nv_enc(&[b'A' + k as u8], b"v")); }
+            bs.extend((a | 0x8000_0000).to_be_bytes()); bs.extend((b | 0x8000_0000).to_be_bytes());
+            bs.extend(rng.bytes(rng.clone().usize_below(40)));
+            let o = ex(&mut log, &mut im, &format!("nv.all {}", hexd(&bs)));
+            if o.contains("ANOMALY") || o.starts_with("panic") { or.fail(format!("two near-maximal length prefixes: {}", &o[..o.len().min(80)]), format!("# case flat-oracle\nnv.all {}", hexd(&bs)), "C16:huge-both".into()); }
+            oracle_bytes(&mut or, &bs, false);
+            or.eval(&bs, true);
+        }
+    } }
     or.count_n("corr_ops", log.nops);
     log.finish();
     or.write(&ctx.dir);
